@@ -44,8 +44,9 @@ LEVEL_NOTE = ('Strength: kernel. Trusted: Coq kernel; hand-written model tied by
               'The executable model is shown to refine the kernel for data edits, schema edits (ALL_ROWS with '
               'clear_dependencies) and one evaluation step with eagerly covered reads; NOT proved (kept as the statement '
               'C05_eval_step_refines_statement): the evaluation step with lazily tracked lookup reads and the '
-              'post-invalidation of lookup-map cells. The scheduler is C06/C18. Two known findings: programs cyclic '
-              'through a lookup; RecordSet.<RefList column> records a dependency with the wrong relation.')
+              'post-invalidation of lookup-map cells. The scheduler is C06/C18. Known finding: programs cyclic through '
+              'a lookup. Repaired (eb8849a, witness replayed first each run): RecordSet.<RefList column> recorded a '
+              'dependency with the wrong relation.')
 PROOF_TIMEOUT = 900
 
 
@@ -352,7 +353,25 @@ def oracle_history(ctx, seed, nb, tag):
     history.append(bundle)
 
 
+def corpus(ctx):
+  """Witnesses of the FIXED known-findings entries of this property: run first, a regression is a violation."""
+  for k in core.load_known():
+    if k['property'] != ID or k.get('kind') != 'fixed' or 'witness' not in k:
+      continue
+    desc = replay(ctx, k['witness'])
+    ctx.count(('corpus', k['id']), nontrivial=True, kind='corpus:fixed-witness')
+    if desc:
+      ctx.violation('regression:' + k['id'], '%s (repaired by %s): %s' % (k['id'], k.get('commit'), desc), k['witness'])
+    if k['id'] == 'C05-reflist-flatten-id-read':       # the monitor's view of the same witness
+      w = dict(k['witness'], mode='monitor', problem='relation-does-not-cover')
+      desc = replay(ctx, w)
+      ctx.count(('corpus', k['id'], 'monitor'), nontrivial=True, kind='corpus:fixed-witness')
+      if desc:
+        ctx.violation('regression:' + k['id'], '%s (repaired by %s): %s' % (k['id'], k.get('commit'), desc), w)
+
+
 def search(ctx):
+  corpus(ctx)
   # 1. the shared run (oracles of C01-C05, C08, C31 on one set of histories)
   res = histrun.shared_run(ctx.tier, ctx.seed, ctx.n(20, 150), 10)
   for k, v in res.get('stats', {}).items():
